@@ -691,6 +691,11 @@ func (e *Exec) opaqueMethod(o Opaque, recv Iface, method string, args []Value) (
 		if v, ok := e.hashMethod(o, method, args); ok {
 			return v, true
 		}
+	case "feetx":
+		if v, ok := e.feeTxMethod(o, method); ok {
+			return v, true
+		}
+		panic(engineErr("method %s on the modelled FeeTx", method))
 	case "configurator":
 		// module.Configurator: the gRPC servers accept any registration; migrations are recorded
 		switch method {
